@@ -1,5 +1,5 @@
 #!/bin/bash
-# re-runs all 20 checks on every stored seeded change (scratch copy of /repo, patch applied) with the current
+# re-runs the checks that analyse the touched files (all 20 with FULL=1) on every stored seeded change (scratch copy of /repo, patch applied) with the current
 # binary and rewrites detected_by_checks / violated_rules in its meta.json.  usage: redetect_seeded.sh [name...]
 export GOFLAGS=-mod=mod GOPROXY=off GOSUMDB=off GOTOOLCHAIN=local; unset GOWORK
 bin=${RTPCHECK_BIN:-/verif/bin/rtpcheck}
@@ -12,19 +12,25 @@ for name in $names; do
   rsync -a --delete --exclude .git /repo/ "$d/"
   (cd "$d" && patch -p1 -s < "$s/patch.diff") || { echo "$name: patch failed"; continue; }
   (cd "$d" && go build ./... >/dev/null 2>&1) || { echo "$name: does not build"; continue; }
-  for p in C01 C02 C03 C04 C05 C06 C07 C08 C09 C10 C11 C12 C13 C14 C15 C16 C17 C18 C19 C20; do
+  all="C01 C02 C03 C04 C05 C06 C07 C08 C09 C10 C11 C12 C13 C14 C15 C16 C17 C18 C19 C20"
+  if [ -z "$FULL" ]; then
+    files=$(grep -E '^\+\+\+ b/' "$s/patch.diff" | sed 's#^+++ b/##')
+    all="$(/verif/tools/props_for_files.sh $files) ${name%%-*}"
+    all=$(echo $all | tr ' ' '\n' | sort -u | tr '\n' ' ')
+  fi
+  for p in $all; do
     ( $bin -prop $p -repo "$d" -verif "$sv" > "$sv/$p.out" 2>&1; echo $? > "$sv/$p.rc" ) &
   done; wait
   det=""; rules=""
-  for p in C01 C02 C03 C04 C05 C06 C07 C08 C09 C10 C11 C12 C13 C14 C15 C16 C17 C18 C19 C20; do
+  for p in $all; do
     rc=$(cat "$sv/$p.rc")
     if [ "$rc" = 1 ]; then det="$det $p"; rules="$rules$(grep -E '^  violation:' "$sv/$p.out" | sed -E 's/^  violation: ([^|]+\|[^|]+)\|.*/\1/' | sort -u | head -3 | sed "s/^/$p:/" | paste -sd';');"; fi
     [ "$rc" = 2 ] && det="$det $p(checker-failure)"
   done
-  python3 - "$s/meta.json" "$det" "$rules" <<'PY'
+  python3 - "$s/meta.json" "$det" "$rules" "$all" <<'PY'
 import json,sys
 f,det,rules=sys.argv[1:4]
-m=json.load(open(f)); m["detected_by_checks"]=det.split(); m["violated_rules"]=[r for r in rules.split(';') if r]
+m=json.load(open(f)); m["checks_run"]=sys.argv[4].split(); m["detected_by_checks"]=det.split(); m["violated_rules"]=[r for r in rules.split(';') if r]
 json.dump(m,open(f,'w'),indent=1)
 PY
   echo "$name: detected_by=${det:- NONE}"
